@@ -39,18 +39,38 @@ fn mask_words(bits: &[u32]) -> String {
 impl Entry {
   pub fn render(&self) -> String {
     let mut s = String::new();
-    s.push_str("I: Bus=0003 Vendor=046d Product=c31c Version=0110\n");
+    // (a marker such as "P:" stands for the default line, "P: Phys=..." is written as it is)
+    let given = |prefix: &str| self.extra.iter().find(|l| l.starts_with(prefix) && l.len() > prefix.len()).cloned();
+    match given("I:") {
+      Some(l) => {
+        s.push_str(&l);
+        s.push('\n');
+      }
+      None => s.push_str("I: Bus=0003 Vendor=046d Product=c31c Version=0110\n"),
+    }
     if let Some(n) = &self.name {
       s.push_str(&format!("N: Name=\"{}\"\n", n));
     }
     if self.extra.iter().any(|l| l.starts_with("P:")) {
-      s.push_str("P: Phys=usb-0000:00:14.0-1/input0\n");
+      match given("P:") {
+        Some(l) => {
+          s.push_str(&l);
+          s.push('\n');
+        }
+        None => s.push_str("P: Phys=usb-0000:00:14.0-1/input0\n"),
+      }
     }
     if let Some(p) = &self.sysfs {
       s.push_str(&format!("S: Sysfs={}\n", p));
     }
     if self.extra.iter().any(|l| l.starts_with("U:")) {
-      s.push_str("U: Uniq=\n");
+      match given("U:") {
+        Some(l) => {
+          s.push_str(&l);
+          s.push('\n');
+        }
+        None => s.push_str("U: Uniq=\n"),
+      }
     }
     if self.extra.iter().any(|l| l.starts_with("H:")) {
       s.push_str(&format!("H: Handlers=sysrq kbd event{} leds \n", self.event_no.unwrap_or(0)));
@@ -235,9 +255,44 @@ impl TextCase {
   }
 }
 
+// The fields that play no part in the classification (I:, P:, U:) take values from small
+// per-case pools, so that neighbouring entries often carry the same bus address, the same
+// serial number or the same vendor / product: interfaces of one physical device. Whether an
+// entry counts as a keyboard must not depend on what it shares with a neighbour.
+fn share_fields(src: &mut Src, entries: &mut Vec<Entry>) {
+  if !src.chance(60) {
+    return;
+  }
+  const IDS: [&str; 6] = ["I: Bus=0003 Vendor=046d Product=c31c Version=0110", "I: Bus=0003 Vendor=1532 Product=0043 Version=0111", "I: Bus=0011 Vendor=0001 Product=0001 Version=ab41", "I: Bus=0005 Vendor=05ac Product=0255 Version=0001", "I: Bus=0019 Vendor=0000 Product=0001 Version=0000", "I: Bus=0003 Vendor=04d9 Product=a09f Version=0111"];
+  const PHYS: [&str; 6] = ["P: Phys=usb-0000:00:14.0-1/input0", "P: Phys=usb-0000:00:14.0-1/input1", "P: Phys=usb-0000:00:14.0-2/input0", "P: Phys=isa0060/serio0/input0", "P: Phys=a4:5e:60:e1:22:01", "P: Phys="];
+  const UNIQ: [&str; 5] = ["U: Uniq=a4:5e:60:e1:22:01", "U: Uniq=0123456789AB", "U: Uniq=KB-0001", "U: Uniq=", "U: Uniq=205A33784B31"];
+  let ids = src.distinct(&IDS, 2);
+  let phys = src.distinct(&PHYS, 2);
+  let uniq = src.distinct(&UNIQ, 2);
+  for e in entries.iter_mut() {
+    let mut set = |prefix: &str, line: &str, always: bool| {
+      let has = e.extra.iter().any(|l| l.starts_with(prefix));
+      if has || always {
+        e.extra.retain(|l| !l.starts_with(prefix));
+        e.extra.push(line.to_string());
+      }
+    };
+    if src.chance(70) {
+      set("I:", src.pick(&ids), true);
+    }
+    if src.chance(70) {
+      set("P:", src.pick(&phys), false);
+    }
+    if src.chance(70) {
+      set("U:", src.pick(&uniq), src.chance(50));
+    }
+  }
+}
+
 fn gen_text_case(src: &mut Src, real: &[String]) -> TextCase {
   let n = src.range(1, 10);
   let mut entries: Vec<Entry> = (0..n).map(|i| gen_entry(src, i)).collect();
+  share_fields(src, &mut entries);
   src.shuffle(&mut entries);
   let mut r = Vec::new();
   if !real.is_empty() && src.chance(35) {
